@@ -80,215 +80,52 @@ class MutexBinding(S.Binding):
         return {"w": [st["futex"]], "q": [sorted(st["waitq"])], "g": [[], sorted(st["guards"])]}
 
 
-def write_cfg(chk, name, n, progs, spur, eintr, ord_name="OrdCode", invariants=True, liveness=True):
-    path = os.path.join(chk.work, "Mutex_%s.cfg" % name)
-    with open(path, "w") as f:
-        f.write("CONSTANTS\n  N = %d\n  Progs <- %s\n  Ord <- %s\n  MaxSpur = %d\n  MaxEintr = %d\n" % (n, progs, ord_name, spur, eintr))
-        f.write("SPECIFICATION Spec\n")
-        if invariants:
-            f.write("INVARIANTS " + INVARIANTS + "\n")
-        if liveness:
-            f.write("PROPERTY Termination\n")
-        f.write("CHECK_DEADLOCK FALSE\n")
-    return path
-
-
-def write_obs_module(chk, ords):
-    """Mutex_Obs.tla: the orderings observed in the recorded executions as the constant Ord."""
-    exc = []
-    for site, seen in sorted(ords.items()):
-        # several orderings at one site: take the weakest-looking one first in sorted order (all are checked by B2 anyway)
-        o = sorted(seen)[0]
-        exc.append('!.%s = <<"%s", "%s">>' % (site, o[0], o[1]))
-    body = "OrdCode" if not exc else "[OrdCode EXCEPT %s]" % ", ".join(exc)
-    path = os.path.join(chk.work, "Mutex_Obs.tla")
-    with open(path, "w") as f:
-        f.write("---- MODULE Mutex_Obs ----\nEXTENDS Mutex_MC\nOrdObs == %s\n====\n" % body)
-    return path
-
-
-def model_check(chk, name, n, progs, spur, eintr, module="Mutex_MC.tla", ord_name="OrdCode", workers=8, timeout=1500, must=True):
-    cfg = write_cfg(chk, name, n, progs, spur, eintr, ord_name)
-    cwd = core.SPECS
-    if module != "Mutex_MC.tla":
-        cwd = chk.work
-    res = core.run_tlc(module, cfg, cwd=cwd, workers=workers, timeout=timeout, xmx="8g",
-                       env={"JAVA_TOOL_OPTIONS": "-XX:ParallelGCThreads=4"})
-    if must:
-        core.tlc_must_pass(res, "Mutex %s" % name)
-    chk.add_tlc(res)
-    core.log("TLC Mutex %s: %d states, %d distinct, %.1fs, %s" % (name, res.generated, res.distinct, res.wall, "ok" if res.ok else "FAILED " + ",".join(res.invariant_violated)))
-    chk.extra.setdefault("model_configs", []).append({"config": name, "threads": n, "programs": PROGS.get(progs, progs), "spurious": spur, "eintr": eintr,
-                                                      "distinct_states": res.distinct, "generated": res.generated, "wall_s": round(res.wall, 1),
-                                                      "orderings": ord_name, "passed": res.ok})
-    return res
-
-
-def explore(chk, bindir, spec, tag):
-    path = os.path.join(chk.work, "explore_%s.json" % tag)
-    with open(path, "w") as f:
-        json.dump(spec, f)
-    mode = "random" if "runs" in spec else "explore"
-    runs, info = S.run_sched(bindir, mode, path)
-    return runs, info
-
-
 def nontrivial_run(r):
-    """a run in which some lock() call found the lock taken (went through lock_contended)"""
+    """a run in which some lock() call found the lock taken (went through lock_contended) or a try_lock failed"""
     return any(e["ev"] in ("wait", "swap") and e.get("new", 2) == 2 for e in r["events"]) or \
         any(e["ev"] == "ret" and e["fn"] == "try_lock" and not e["ok"] for e in r["events"])
 
 
+def bad_state(st):
+    if st["race"] or st["tryBad"] or len(st["guards"]) > 1:
+        return True
+    return "parked" in st["pc"] and all(p == "parked" or (p == "idle" and not pr) for p, pr in zip(st["pc"], st["prog"]))
+
+
+LC = S.LockCheck(
+    "C01", "mutex", "Mutex", MutexBinding(), PROGS, DEFAULT_ORD, INVARIANTS, ["MaxSpur", "MaxEintr"], nontrivial_run, bad_state,
+    rule=("evaluations = recorded executions of the real Mutex (B1 tour paths + DFS schedules + random schedules), each judged "
+          "event by event by TLC (SyncTrace.tla); non-trivial = executions in which a lock() found the mutex taken "
+          "(swap to 2 / FUTEX_WAIT) or a try_lock failed"),
+    assumptions=S.COMMON_ASSUMPTIONS + [
+        "bounded: 2-4 threads, programs of 1-2 sections per thread, <=1 spurious wake and <=1 EINTR per thread, DFS preemption bounds as listed under coverage.exploration"])
+
+
 def run(tier):
-    chk = core.Check("C01", tier, "model_checking")
-    quick = tier == "quick"
-    bind = MutexBinding()
-    bindir = core.cargo_build(bins=["sched"])
-    all_ords = {}
-    drift = []
-    tour_stats = []
-    nontrivial = 0
-
-    def judge_and_report(runs, tag, source):
-        nonlocal nontrivial
-        v = S.judge_runs(chk, runs, tag)
-        S.report_violations(chk, "mutex", runs, v, source)
-        chk.evaluations += len(runs)
-        nontrivial += sum(1 for r in runs if nontrivial_run(r))
-        return v
-
-    # ---- 1. exhaustive model checking + state graph of the small configurations, B1 tour
-    tours = [("2", 2, "P2", 1, 1)] if quick else [("2", 2, "P2", 1, 1), ("2t", 2, "P2t", 1, 1), ("3", 3, "P3", 1, 1)]
-    if quick:
-        tours.append(("3t", 3, "P3t", 1, 0))
-    for name, n, progs, spur, eintr in tours:
-        cfg = write_cfg(chk, name, n, progs, spur, eintr)
-        res, g = S.dump_graph(chk, "Mutex_MC.tla", cfg, "mutex_" + name)
-        chk.add_tlc(res)
-        chk.extra.setdefault("model_configs", []).append({"config": name, "threads": n, "programs": PROGS[progs], "spurious": spur, "eintr": eintr,
-                                                          "distinct_states": res.distinct, "generated": res.generated, "wall_s": round(res.wall, 1),
-                                                          "orderings": "OrdCode", "passed": True})
-        paths, covered, total = S.transition_tour(g)
-        runs, divs, ords, agreed = S.replay_paths(chk, bindir, bind, g, paths, PROGS[progs], "mutex_" + name)
-        for k, v in ords.items():
-            all_ords.setdefault(k, set()).update(v)
-        steps = sum(map(len, paths))
-        # edges really confirmed = edges on agreed prefixes
-        confirmed = set()
-        bad_runs = {d["run"]: d["k"] for d in divs}
-        for i, p in enumerate(paths):
-            confirmed.update(p[:bad_runs.get(i, len(p))])
-        tour_stats.append({"config": name, "states": len(g.label), "edges": len(g.edges), "tour_paths": len(paths), "tour_steps": steps,
-                           "edges_in_tour": covered, "edges_confirmed_on_real_code": len(confirmed),
-                           "edge_coverage": round(len(confirmed) / max(1, len(g.edges)), 4), "divergent_paths": len(divs)})
-        core.log("tour %s: %d states %d edges, %d paths %d steps, confirmed %d edges, %d divergent" % (name, len(g.label), len(g.edges), len(paths), steps, len(confirmed), len(divs)))
-        for d in divs[:3]:
-            drift.append({"config": name, **{k: d[k] for k in ("run", "k", "edge", "why")}})
-        judge_and_report(runs, "tour_" + name, "B1 tour of Mutex_MC %s" % name)
-        if len(chk.samples) < 2 and runs:
-            chk.sample({"source": "tour " + name, "progs": PROGS[progs], "sched": runs[len(runs) // 2]["end"]["sched"]})
-
-    # ---- 2. orderings actually passed by the code -> constants of the model
-    observed = {k: sorted(v) for k, v in all_ords.items()}
-    differs = {k: v for k, v in observed.items() if set(v) != {DEFAULT_ORD[k]}}
-    chk.extra["orderings_observed"] = {k: ["/".join(o) for o in v] for k, v in observed.items()}
-    chk.extra["orderings_differ_from_spec_default"] = {k: ["/".join(o) for o in v] for k, v in differs.items()}
-    ord_name, module = "OrdCode", "Mutex_MC.tla"
-    if differs:
-        write_obs_module(chk, all_ords)
-        ord_name, module = "OrdObs", "Mutex_Obs.tla"
-        core.log("orderings differ from the specification's defaults: %s" % differs)
-
-    # ---- 3. the remaining exhaustive configurations, with the observed orderings
-    if quick:
-        configs = [("3", 3, "P3", 1, 1)] + ([("2", 2, "P2", 1, 1)] if differs else [])
-    else:
-        configs = [("3t", 3, "P3t", 1, 1), ("3b", 3, "P3b", 1, 0), ("4", 4, "P4", 1, 0), ("4t", 4, "P4t", 1, 0)] + \
-                  ([("2", 2, "P2", 1, 1), ("3", 3, "P3", 1, 1)] if differs else [])
-    for name, n, progs, spur, eintr in configs:
-        res = model_check(chk, name + ("obs" if differs else ""), n, progs, spur, eintr, module=module, ord_name=ord_name, must=not differs)
-        if not res.ok and differs:
-            # counterexample of the MODEL under the code's orderings: never a verdict by itself;
-            # find a shortest path to a bad model state and replay it into the real code
-            cfg = write_cfg(chk, name + "obs_graph", n, progs, spur, eintr, ord_name, invariants=False, liveness=False)
-            _, g = S.dump_graph(chk, module, cfg, "mutex_obs_" + name, cwd=chk.work, check=True)
-
-            def bad(nid):
-                st = g.state(nid)
-                if st["race"] or st["tryBad"] or len(st["guards"]) > 1:
-                    return True
-                return all(p == "parked" or (p == "idle" and not pr) for p, pr in zip(st["pc"], st["prog"])) and "parked" in st["pc"]
-            p = S.shortest_path_to(g, bad)
-            if p is None:
-                core.log("model fails under observed orderings but no bad state found in the graph")
-                continue
-            runs, divs, _, _ = S.replay_paths(chk, bindir, bind, g, [p], PROGS[progs], "mutex_cex_" + name)
-            chk.extra.setdefault("model_counterexamples_replayed", []).append(
-                {"config": name, "length": len(p), "actions": [g.edges[e][2] for e in p], "diverged": bool(divs)})
-            judge_and_report(runs, "cex_" + name, "replay of TLC counterexample (Mutex_MC %s with the observed orderings)" % name)
-            break
-
-    # ---- 4. systematic exploration of the real code itself (stateless DFS, preemption bound) + random
-    if quick:
+    if tier == "quick":
+        tours = [("2", 2, "P2", (1, 1)), ("3t", 3, "P3t", (1, 0))]
+        configs = [("3", 3, "P3", (1, 1))]
+        configs_if_differs = [("2", 2, "P2", (1, 1))]
         specs = [
-            ("dfs2", {"kind": "mutex", "progs": PROGS["P2"], "preempt": 2, "max_runs": 3000, "spur": 1, "eintr": 1}),
-            ("dfs2t", {"kind": "mutex", "progs": [TAU + LAU, LAU], "preempt": 3, "max_runs": 3000, "spur": 1, "eintr": 0}),
-            ("dfs3", {"kind": "mutex", "progs": PROGS["P3"], "preempt": 2, "max_runs": 1500, "spur": 0, "eintr": 0}),
-            ("rnd4", {"kind": "mutex", "progs": [LAU + LAU, LAU + TAU, TAU + LAU, LAU], "runs": 150, "spur": 1, "eintr": 1}),
+            ("dfs2", {"progs": PROGS["P2"], "preempt": 2, "max_runs": 3000, "spur": 1, "eintr": 1}),
+            ("dfs2t", {"progs": [TAU + LAU, LAU], "preempt": 3, "max_runs": 3000, "spur": 1, "eintr": 0}),
+            ("dfs3", {"progs": PROGS["P3"], "preempt": 2, "max_runs": 1500, "spur": 0, "eintr": 0}),
+            ("rnd4", {"progs": [LAU + LAU, LAU + TAU, TAU + LAU, LAU], "runs": 150, "spur": 1, "eintr": 1}),
         ]
     else:
+        tours = [("2", 2, "P2", (1, 1)), ("2t", 2, "P2t", (1, 1)), ("3t", 3, "P3t", (1, 1)), ("3", 3, "P3", (1, 1))]
+        configs = [("3b", 3, "P3b", (1, 0)), ("4", 4, "P4", (1, 0)), ("4t", 4, "P4t", (1, 0))]
+        configs_if_differs = [("2", 2, "P2", (1, 1)), ("3", 3, "P3", (1, 1))]
         specs = [
-            ("dfs2", {"kind": "mutex", "progs": PROGS["P2"], "preempt": 4, "max_runs": 40000, "spur": 1, "eintr": 1}),
-            ("dfs2t", {"kind": "mutex", "progs": PROGS["P2t"], "preempt": 4, "max_runs": 20000, "spur": 1, "eintr": 1}),
-            ("dfs3", {"kind": "mutex", "progs": PROGS["P3"], "preempt": 3, "max_runs": 20000, "spur": 1, "eintr": 0}),
-            ("dfs3b", {"kind": "mutex", "progs": PROGS["P3b"], "preempt": 2, "max_runs": 20000, "spur": 0, "eintr": 0}),
-            ("dfs4", {"kind": "mutex", "progs": PROGS["P4t"], "preempt": 2, "max_runs": 20000, "spur": 0, "eintr": 0}),
-            ("rnd4", {"kind": "mutex", "progs": [LAU + LAU, LAU + TAU, TAU + LAU, LAU + LAU], "runs": 3000, "spur": 1, "eintr": 1}),
+            ("dfs2", {"progs": PROGS["P2"], "preempt": 4, "max_runs": 40000, "spur": 1, "eintr": 1}),
+            ("dfs2t", {"progs": PROGS["P2t"], "preempt": 4, "max_runs": 20000, "spur": 1, "eintr": 1}),
+            ("dfs3", {"progs": PROGS["P3"], "preempt": 3, "max_runs": 20000, "spur": 1, "eintr": 0}),
+            ("dfs3b", {"progs": PROGS["P3b"], "preempt": 2, "max_runs": 20000, "spur": 0, "eintr": 0}),
+            ("dfs4", {"progs": PROGS["P4t"], "preempt": 2, "max_runs": 20000, "spur": 0, "eintr": 0}),
+            ("rnd4", {"progs": [LAU + LAU, LAU + TAU, TAU + LAU, LAU + LAU], "runs": 3000, "spur": 1, "eintr": 1}),
         ]
-    explored = []
-    for tag, spec in specs:
-        spec = dict(spec, seed=chk.seed)
-        runs, info = explore(chk, bindir, spec, tag)
-        explored.append({"tag": tag, "progs": spec["progs"], "preemption_bound": spec.get("preempt"), "runs": len(runs),
-                         "complete_within_bound": info.get("complete"), "spurious": spec["spur"], "eintr": spec["eintr"]})
-        core.log("explore %s: %d runs, complete=%s" % (tag, len(runs), info.get("complete")))
-        judge_and_report(runs, tag, "exploration %s" % tag)
-        if runs:
-            chk.sample({"source": tag, "progs": spec["progs"], "sched": runs[-1]["end"]["sched"]})
-
-    chk.nontrivial = nontrivial
-    chk.rule = ("evaluations = recorded executions of the real Mutex (B1 tour paths + DFS schedules + random schedules), each judged "
-                "event by event by TLC (SyncTrace.tla); non-trivial = executions in which a lock() found the mutex taken "
-                "(swap to 2 / FUTEX_WAIT) or a try_lock failed")
-    chk.extra["transition_tour"] = tour_stats
-    chk.extra["model_conformance"] = not drift
-    if drift:
-        chk.extra["model_drift"] = drift
-    chk.extra["exploration"] = explored
-    chk.exhaustive = False
-    chk.assumptions = [
-        "atomic operations are sequentially consistent in model and instrument (one thread runs at a time); memory orderings are judged through happens-before for the guarded data only (Machine.tla)",
-        "FUTEX_WAIT/WAKE are simulated by the scheduler (wait = compare-and-park or EAGAIN, wake(n) wakes exactly min(n, parked) waiters of the scheduler's choice, spurious returns and EINTR on demand); rusl::futex itself is not exercised by this instrument",
-        "the spin loop is collapsed: its identical loads form one event, a spinning thread observes the word once per scheduling decision",
-        "bounded: 2-4 threads, programs of 1-2 sections per thread, <=1 spurious wake and <=1 EINTR per thread, DFS preemption bounds as listed under coverage.exploration",
-    ]
-    return chk.finish()
+    return LC.run(tier, tours, configs, configs_if_differs, specs)
 
 
 def replay(path):
-    rp = json.load(open(path))["replay"]
-    chk = core.Check("C01", "replay", "model_checking")
-    bindir = core.cargo_build(bins=["sched"])
-    plans = os.path.join(chk.work, "replay_plan.ndjson")
-    with open(plans, "w") as f:
-        f.write(json.dumps({"run": 0, "kind": rp["kind"], "progs": rp["progs"], "sched": rp["sched"], "snap": False}) + "\n")
-    runs, _ = S.run_sched(bindir, "replay", plans)
-    v = S.judge_runs(chk, runs, "replay")
-    for e in runs[0]["events"]:
-        print(json.dumps(e, separators=(",", ":")))
-    print(json.dumps(runs[0]["end"], separators=(",", ":")))
-    if v:
-        print("REPRODUCED: %s at event %d (expected %s)" % (v[0]["code"], v[0]["line"], rp.get("code")))
-        return 1
-    print("not reproduced (expected %s): the recorded schedule is accepted by SyncTrace on the current tree" % rp.get("code"))
-    return 0
+    return LC.replay(path)
